@@ -282,6 +282,12 @@ impl<'tcx> Ex<'tcx> {
                                     mentions.push(s(txt));
                                 }
                             }
+                            if let Some(term) = &bbd.terminator {
+                                if let TerminatorKind::Call { func, args, .. } = &term.kind {
+                                    let a: Vec<String> = args.iter().map(|x| format!("{:?}", x.node)).collect();
+                                    mentions.push(s(format!("call {:?}({})", func, a.join(", "))));
+                                }
+                            }
                         }
                     }
                 }
